@@ -56,6 +56,8 @@ type Input struct {
 	WantErr bool
 }
 
+var lockedDirNames = []string{"api", "api-internal", "apiv2", "proto", "proto2", "d", "d1", "d10", "lib", "lib.old", "api_internal"}
+
 func (in *Input) String() string {
 	if in == nil {
 		return "root"
@@ -178,10 +180,13 @@ func GenLocked(r *hx.Rand, o Opts) *WS {
 	}
 	var order []lref
 	dirs := []string{"a", "a/b", "ab", "a/bc", "c", "x/y/z", ""}
+	dirShift := r.Intn(len(lockedDirNames))
 	for i := range locals {
 		a := &locals[i]
 		a.Local = true
-		a.Dir = fmt.Sprintf("d%d", i)
+		// directory names in which one is a STRING prefix of a sibling without being its parent
+		// (api / api-internal, proto / proto2, d / d1 / d10): containment is by path component
+		a.Dir = lockedDirNames[(i+dirShift)%len(lockedDirNames)]
 		if r.Chance(1, 3) {
 			a.Dir = "libs/" + a.Dir
 		}
